@@ -36,7 +36,10 @@ def _sym_solution(E, m, lo=-10, hi=10):
             E.assume(z3.Or(lift(v[i]) == 0, lift(v[i]) >= rv(1e-3), lift(v[i]) <= rv(-1e-3)))
     fl = pd.Series(index=ids, data=[v[i] for i in ids], name="fluxes", dtype=object if E.symbolic else float)
     obj = sum((c * v[r.id] for r, c in _objective(m).items()), 0)
-    sol = Solution(objective_value=obj, status="optimal", fluxes=fl,
+    # the given solution need not be an optimal one (time limit hit, hand-built, taken from elsewhere): a summary describes
+    # the solution it is given
+    status = E.pick("given_solution_status", ["optimal", "time_limit"])
+    sol = Solution(objective_value=obj, status=status, fluxes=fl,
                    reduced_costs=pd.Series(index=ids, data=[0.0] * len(ids)),
                    shadow_prices=pd.Series(index=[x.id for x in m.metabolites], data=[0.0] * len(m.metabolites)))
     return sol, v
@@ -63,6 +66,20 @@ def _sym_fva(E, m, v, ids):
                 E.assume(z3.Or(lift(b) == 0, lift(b) >= rv(1e-3), lift(b) <= rv(-1e-3)))
     return pd.DataFrame({"minimum": pd.Series(lo, dtype=object if E.symbolic else float),
                          "maximum": pd.Series(hi, dtype=object if E.symbolic else float)}, index=ids), lo, hi
+
+
+def _summary(E, cls, fva=None, **kw):
+    """build the summary; optionally an earlier summary was built from the very same solution and FVA frame objects.
+    The caller's FVA frame is proved unchanged."""
+    snap = None if fva is None else {(i, c): fva.at[i, c] for i in fva.index for c in fva.columns}
+    if E.flag("same_arguments_summarised_before"):
+        cls(fva=fva, **kw)
+    out = cls(fva=fva, **kw)
+    if snap is not None:
+        now = {(i, c): fva.at[i, c] for i in fva.index for c in fva.columns}
+        E.prove(set(now) == set(snap) and E.all_of([E.eq(now[k], snap[k]) for k in snap if k in now]),
+                "callers-fva-frame-unchanged")
+    return out
 
 
 def _render(E, s):
@@ -98,7 +115,7 @@ def c20_model(E):
     if use_fva:
         fva, lo, hi = _sym_fva(E, m, v, boundary)
     E.note(template=tid, fva=use_fva)
-    s = ModelSummary(model=m, solution=sol, fva=fva)
+    s = _summary(E, ModelSummary, model=m, solution=sol, fva=fva)
     up, sec = s.uptake_flux, s.secretion_flux
     listed = list(up["reaction"]) + list(sec["reaction"])
     E.prove(sorted(listed) == boundary, "every-boundary-reaction-exactly-once", listed=sorted(listed))
@@ -150,7 +167,7 @@ def c20_metabolite(E):
     else:
         if not any(x > TOL for x in scaled.values()) or not any(x < -TOL for x in scaled.values()):
             return
-    s = MetaboliteSummary(metabolite=met, model=m, solution=sol, fva=fva)
+    s = _summary(E, MetaboliteSummary, metabolite=met, model=m, solution=sol, fva=fva)
     pro, con = s.producing_flux, s.consuming_flux
     listed = list(pro["reaction"]) + list(con["reaction"])
     E.prove(sorted(listed) == rxns, "every-reaction-of-the-metabolite-exactly-once", listed=sorted(listed))
@@ -197,7 +214,7 @@ def c20_reaction(E):
     fva = None
     if use_fva:
         fva, lo, hi = _sym_fva(E, m, v, [rid])
-    s = ReactionSummary(reaction=m.reactions.get_by_id(rid), model=m, solution=sol, fva=fva)
+    s = _summary(E, ReactionSummary, reaction=m.reactions.get_by_id(rid), model=m, solution=sol, fva=fva)
     fr = s._flux
     E.prove(list(fr.index) == [rid], "one-row-for-the-reaction")
     E.prove(E.eq(fr.at[rid, "flux"], v[rid]), "listed-flux=solution-flux")
